@@ -122,7 +122,7 @@ fn mk_raw_dummy(_lat_ts: f64, _k0: f64) -> RawParameters {
     RawParameters::default()
 }
 
-// @harness c13_merc_lat_ts_sets_k0 prop=C13 tier=quick cap=1200 stubs="M-BTREE, S-PPNEW(ParsedParameters::new), OpDescriptor::new (no tokenisation), Uuid::new_v4 = nil, ParsedParameters::ellps = GRS80, S-UF-SMALL(sin_cos, sqrt)" bound="lat_ts = 15*j degrees for j in -6..=6 (symbolic), k_0 in {1,2,3,4}: stored k_0 == cos/sqrt(1 - e^2 sin^2) of lat_ts for every non-zero lat_ts of either sign, unchanged for lat_ts = 0"
+// @harness c13_merc_lat_ts_sets_k0 prop=C13 tier=quick cap=1200 nomem=yes ignore=dealloc stubs="M-BTREE, S-PPNEW(ParsedParameters::new), OpDescriptor::new (no tokenisation), Uuid::new_v4 = nil, ParsedParameters::ellps = GRS80, S-UF-SMALL(sin_cos, sqrt)" bound="lat_ts = 15*j degrees for j in -7..=7 (symbolic; +-105 must be refused), k_0 in {1,2,3,4}: stored k_0 == cos/sqrt(1 - e^2 sin^2) of lat_ts for every non-zero lat_ts of either sign, unchanged for lat_ts = 0"
 #[kani::proof]
 #[kani::stub(ParsedParameters::new, stub_pp_new)]
 #[kani::stub(ParsedParameters::ellps, stub_ellps_default)]
@@ -134,9 +134,9 @@ fn mk_raw_dummy(_lat_ts: f64, _k0: f64) -> RawParameters {
 #[kani::unwind(12)]
 fn c13_merc_lat_ts_sets_k0() {
     let j: i8 = nd();
-    // |lat_ts| <= 90: the refusal of larger values drops the half-built parameter set, which
-    // this harness' stubbed front end cannot model faithfully (allocator artefacts)
-    kani::assume(j >= -6 && j <= 6);
+    // |lat_ts| = 105 is refused (that path drops the half-built parameter set: the allocator-model
+    // assertions it trips are ignored for this harness, see DESIGN 9.2 item 8)
+    kani::assume(j >= -7 && j <= 7);
     let lat_ts = j as f64 * 15.;
     let k0 = small_pos();
     unsafe {
@@ -163,5 +163,5 @@ fn c13_merc_lat_ts_sets_k0() {
         }
     }
     kani::cover!(j < 0 && j >= -6);
-    kani::cover!(j == 6);
+    kani::cover!(j == 7);
 }
